@@ -124,6 +124,7 @@ fn scenario_store(sc: &str) -> Result<Violations, String> {
                     if is_set {
                         let a = &after["k"];
                         chk(&mut v, "C01.set-stores", a.version == spec_next_version(cv, resolving, o.version) && a.state == upd(o.state) && a.va == o.va && a.ka == o.ka);
+                        chk(&mut v, "C01.dirty-state-rule", a.state == upd(o.state));
                     }
                 }
             }
@@ -172,6 +173,7 @@ fn scenario_store(sc: &str) -> Result<Violations, String> {
                 if let Some(o) = &old {
                     if o.version < i32::MAX { chk(&mut v, "C02.grow-inc", after["k"].version > o.version); }
                     chk(&mut v, "C01.inc-keeps-disk-state", after["k"].va == o.va && after["k"].ka == o.ka && after["k"].state == upd(o.state));
+                    chk(&mut v, "C01.dirty-state-rule", after["k"].state == upd(o.state));
                 }
                 chk(&mut v, "C03.emit-inc", msgs.len() == 2 && msgs[0] == format!("changed k {}\n", after["k"].value));
             }
@@ -307,7 +309,7 @@ fn all_pending_scenarios() -> Vec<String> {
         if depth == 0 { return; }
         for e in evs { cur.push(e.to_string()); rec(evs, cur, depth - 1, out); cur.pop(); }
     }
-    rec(&evs, &mut vec![], 4, &mut out);
+    rec(&evs, &mut vec![], 5, &mut out);
     out
 }
 
